@@ -7,6 +7,7 @@ from ahbicht.models.validation_results import (DataElementValidationResult, Segm
                                                ValidationResultInContext)
 from ahbicht.models.validation_values import RequirementValidationValue
 from maus.models.edifact_components import DataElementDataType
+from contracts import validation_replay as _vr
 from pyvc import lists as L
 from pyvc.contracts import (AnyOf, Bool, Const, Enum, Inst, OneOfEnums, Opt, Raw, SeqOf, Str, contract, lemma)
 from pyvc.values import ListObj, Obj, Opaque, Sc, SV, mk_b, mk_s
@@ -195,6 +196,9 @@ class OwnStatus:
     """own status = documented mapping of (indicator, outcome) combined with the parent's status; an invalid
     expression makes the node optional with the reason as hint (C16); NotImplementedError for an undetermined
     MUSS/prefix node"""
+    concretize = _vr.concretize
+    replay_is_conclusive = False
+    call_native = _vr.make_call_native("get_segment_level_requirement_validation_value")
     params = dict(segment_level=_level("SegmentGroup"), parent_segment_group_requirement=PARENT,
                   soll_is_required=Bool())
     raises = {"NotImplementedError": None, "SyntaxError": None, "Exception": None}
@@ -243,6 +247,9 @@ def _groups(ex, st, name, i=None):
 class ValidateSegmentGroup:
     """result == flat_group(group, parent, soll): the group, then its sub-groups, then its segments, each through the
     spec of the next level; nothing below a forbidden node; InvalidExpressionError never escapes"""
+    concretize = _vr.concretize
+    replay_is_conclusive = False
+    call_native = _vr.make_call_native("validate_segment_group")
     cases = [dict(segment_group=_level("SegmentGroup", segment_groups=SeqOf(_group_leaf), segments=SeqOf(_segment)),
                   parent_segment_group_requirement=PARENT, soll_is_required=Bool()),
              dict(segment_group=_level("SegmentGroup", segment_groups=Const(None), segments=SeqOf(_segment)),
@@ -261,6 +268,9 @@ class ValidateSegmentGroup:
 @contract(V + "validate_segment", prop=["C13", "C14", "C16"])
 class ValidateSegment:
     """result == flat_segment(segment, parent, soll): the segment followed by its data elements in order"""
+    concretize = _vr.concretize
+    replay_is_conclusive = False
+    call_native = _vr.make_call_native("validate_segment")
     params = dict(segment=_level("Segment", data_elements=SeqOf(_any_element)), segment_group_requirement=PARENT,
                   soll_is_required=Bool())
     raises = MAY
@@ -272,6 +282,9 @@ class ValidateSegment:
 
 @contract(V + "validate_deep_anwendungshandbuch", prop=["C13", "C14", "C16"])
 class ValidateDeep:
+    concretize = _vr.concretize
+    replay_is_conclusive = False
+    call_native = _vr.make_call_native("validate_deep_anwendungshandbuch")
     params = dict(deep_ahb=Inst("DeepAnwendungshandbuch", lines=SeqOf(_group_leaf)), soll_is_required=Bool())
     raises = MAY
 
@@ -309,6 +322,9 @@ def _abs_value(name, order):
 @contract(V + "validate_data_element", prop=["C13", "C14"])
 class ValidateDataElement:
     """dispatch by class; the flag is forwarded to free-text elements (value pools do not depend on it)"""
+    concretize = _vr.concretize
+    replay_is_conclusive = False
+    call_native = _vr.make_call_native("validate_data_element")
     cases = [dict(data_element=_free_text(), segment_requirement=Enum(RVV, among=SEG3), soll_is_required=Bool()),
              dict(data_element=_value_pool(), segment_requirement=Enum(RVV, among=SEG3), soll_is_required=Bool())]
     raises = MAY
@@ -323,6 +339,9 @@ class ValidateFreeText:
     """status = suffixed(combine(segment, map(outcome, indicator, soll))) by the entered input; invalid expression ->
     IS_OPTIONAL with the reason as hint and a fulfilled format result; the expression is evaluated with the
     context-local text set to this element's own input (C15)"""
+    concretize = _vr.concretize
+    replay_is_conclusive = False
+    call_native = _vr.make_call_native("validate_data_element_freetext")
     params = dict(data_element=_free_text(), segment_requirement=Opt(Enum(RVV, among=["IS_REQUIRED", "IS_OPTIONAL"])),
                   soll_is_required=Bool())
     raises = MAY
@@ -360,6 +379,9 @@ class ValidateValuePool:
     """offered = qualifiers whose own expression is fulfilled (invalid: selectable), in pool order; single-entry pools
     always offer their entry; nothing offered or forbidden segment -> IS_FORBIDDEN; entered value accepted iff
     offered; unexpected value flagged, reported empty and reset"""
+    concretize = _vr.concretize
+    replay_is_conclusive = False
+    call_native = _vr.make_call_native("validate_data_element_valuepool")
     params = dict(data_element=_value_pool(), segment_requirement=Enum(RVV, among=SEG3))
     raises = MAY
     hook = _abs_value("valuepool", ["data_element", "segment_requirement"])
